@@ -58,13 +58,13 @@ PROPS = {
         ["Props.C13:C13_encode_err,C13_out_of_remainders"], [("fam_chain", "gen_free", 200, 8000)],
         "chain coder history with an impossible symbol or an OutOfRemainders encode",
         "C13_encode_err: the chain coder's only encode errors are ImpossibleSymbol and OutOfRemainders, returned "
-        "without a new coder state.", "No axioms. No direct C09 oracle for this family (correspondence only).",
+        "without a new coder state.", "No axioms. C09 oracle of the family: refusal codes per symbol, state unchanged.",
         "Coq proof + correspondence"),
     "C09_huff": _part(
         ["Props.C15:C15_huff_reject"], [("fam_huff", "gen_int", 60, 3000)],
         "Huffman tree queried with symbols outside the alphabet",
         "C15_huff_reject: symbols >= n are rejected with ImpossibleSymbol in both codeword forms.",
-        "No axioms. The C15 oracle of the family covers rejection; no separate C09 oracle.",
+        "No axioms. C09 oracle of the family: rejection by both codeword forms and the message forms.",
         "Coq proof + correspondence"),
     "C10_chain": _part(
         ["Props.C13:C13_decode_err,C13_out_of_data,C13_decode_no_overflow", "Props.C14:C14_oom_independent"],
